@@ -890,9 +890,12 @@ get_image_title(vbi_export *e, const vbi_page *pg, char *title, int title_max)
                 return;
         }
 
-        if (e->network)
+        if (e->network) {
                 size = snprintf(title, title_max - 1, "%s ", e->network);
-        else
+                /* snprintf() returns the untruncated length. */
+                if (size > title_max - 2)
+                        size = title_max - 2;
+        } else
                 title[0] = 0;
 
         /*
